@@ -139,6 +139,8 @@ def main():
                 items.append((t.to_json(), st, args.seed + k, timeout, ("numpy", "SX", "MX") if st == "array" else ("numpy",)))
         else:
             items.append((t.to_json(), styles[k % 2], args.seed + k, timeout, ("numpy", "SX", "MX")))
+    if not args.only or args.only in families.long_link().name:
+        items.append((families.long_link().to_json(), "array", args.seed, timeout, ("numpy", "SX", "MX")))
     hs = ["decoy-attachments-replaced", "reads-interleaved", "decoy-links-replaced"]
     for k, t in enumerate(families.curated()):
         if args.only and args.only not in t.name:
